@@ -41,3 +41,75 @@ M("C09", "cmpbytes-le8", "bitstr/bitstr.go", "if la < 8 {", "if la <= 8 {", expe
 M("C09", "upto-lastbyte-nomask", "bitstr/bitstr.go", "bytea := a[la-1] & b[lb-1]", "bytea := a[la-1]")
 M("C09", "strcmpupto-revert", "bitstr/bitstr.go", "\tbh.Cap = sh.Len\n", "\tbh.Cap = 0\n")
 M("C09", "len-off", "bitstr/bitstr.go", "return int32(l)<<3 - 16 +", "return int32(l)<<3 - 15 +")
+# ---- C02 select
+M("C02", "halving-15", "bitmap/select.go", "\t\t\tbase |= 16\n\t\t\tww >>= 16", "\t\t\tbase |= 16\n\t\t\tww >>= 15")
+M("C02", "r64-halving-15", "bitmap/select.go", "\t\toffset |= 16\n\t\tww >>= 16", "\t\toffset |= 16\n\t\tww >>= 15")
+M("C02", "next1-scan-start", "bitmap/select.go", "for wordI := a>>6 + 1; wordI < l; wordI++ {", "for wordI := a>>6 + 2; wordI < l; wordI++ {")
+M("C02", "tail-l5", "bitmap/select.go", "\t\t}\n\t}\n\treturn a, l << 6\n}\n\n// IndexSelect32R64", "\t\t}\n\t}\n\treturn a, l << 5\n}\n\n// IndexSelect32R64")
+M("C02", "r64-tail-l5", "bitmap/select.go", "\treturn a, l << 6\n}\n\n// indexSelectU64", "\treturn a, l << 5\n}\n\n// indexSelectU64")
+M("C02", "index-and15", "bitmap/select.go", "\t\t\tif ith&31 == 0 {\n\t\t\t\tsidx = append(sidx, int32(i))\n\t\t\t}\n\t\t}\n\t}\n\n\t// clone to reduce cap to len\n\tsidx = append(sidx[:0:0], sidx...)\n\treturn sidx\n}", "\t\t\tif ith&15 == 0 {\n\t\t\t\tsidx = append(sidx, int32(i))\n\t\t\t}\n\t\t}\n\t}\n\n\t// clone to reduce cap to len\n\tsidx = append(sidx[:0:0], sidx...)\n\treturn sidx\n}")
+M("C02", "lookup-or-xor", "bitmap/select.go", "a = int32(select8Lookup[(ww&0xff)<<3|uint64(findIth)]) + base\n", "a = int32(select8Lookup[(ww&0xff)<<3^uint64(findIth)]) + base\n", expect="equivalent")  # operands never overlap
+M("C02", "lookup-entry", "bitmap/select.go", "\t\t\tselect8Lookup[i*8+j] = uint8(x)", "\t\t\tselect8Lookup[i*8+j] = uint8(x)\n\t\t\tif i == 0xb5 && j == 4 {\n\t\t\t\tselect8Lookup[i*8+j] = 6\n\t\t\t}")
+M("C02", "r64-mask", "bitmap/select.go", "w &= RMaskUpto[a&63]", "w &= RMask[a&63]")
+M("C02", "hi-byte-7f0", "bitmap/select.go", "a = int32(select8Lookup[(ww>>5)&(0x7f8)|uint64(findIth-ones)]) + base + 8", "a = int32(select8Lookup[(ww>>5)&(0x7f0)|uint64(findIth-ones)]) + base + 8")
+# ---- C13 next/prev
+M("C13", "step-63", "bitmap/next.go", "for ; i < end; i += 64 {", "for ; i < end; i += 63 {")
+M("C13", "step-word-inverted", "bitmap/next.go", "\t\t\tword := bm[i>>6]\n\t\t\tif word != 0 {", "\t\t\tword := bm[i>>6]\n\t\t\tif word == 0 {")
+M("C13", "prev-minus0", "bitmap/next.go", "end = (end & ^63) - 1", "end = (end & ^63) - 0")
+M("C13", "next-round", "bitmap/next.go", "i = (i + 63) & ^63", "i = (i + 64) & ^63", expect="equivalent")  # an aligned i only re-reads the word already found empty
+M("C13", "prev-step", "bitmap/next.go", "for ; end >= i; end -= 64 {", "for ; end > i; end -= 64 {")
+M("C13", "next-clip", "bitmap/next.go", "if nxt >= end {", "if nxt > end {")
+M("C13", "prev-lz", "bitmap/next.go", "prv = end - int32(bits.LeadingZeros64(word))", "prv = end - int32(bits.LeadingZeros64(word)) + 1")
+# ---- C12
+M("C12", "of-round", "bitmap/of.go", "nWords := (n + 63) >> 6", "nWords := (n + 64) >> 6")
+M("C12", "extend-gt", "bitmap/builder.go", "if bitEnd >= size {", "if bitEnd > size {")
+M("C12", "safeget-gt", "bitmap/get.go", "func SafeGet(bm []uint64, i int32) uint64 {\n\twordI := i >> 6\n\tbitI := i & 63\n\tif wordI < 0 || wordI >= int32(len(bm)) {", "func SafeGet(bm []uint64, i int32) uint64 {\n\twordI := i >> 6\n\tbitI := i & 63\n\tif wordI < 0 || wordI > int32(len(bm)) {")
+M("C12", "ofmany-base", "bitmap/ofmany.go", "\t\tbase += sizes[i]\n", "\t\tbase += sizes[i]\n\t\tif i == 3 {\n\t\t\tbase++\n\t\t}\n")
+M("C12", "builder-set-offset", "bitmap/builder.go", "if b.Offset <= bitPosition {", "if b.Offset < bitPosition {")
+M("C12", "toarray-skip63", "bitmap/toarray.go", "for i := int32(0); i < l; i++ {", "for i := int32(0); i < l-1; i++ {")
+# ---- C08
+M("C08", "fromstr-shift", "bitword/bitword.go", "(b >> uint(8-w.width*j-w.width)) & w.wordMask", "(b >> uint(7-w.width*j-w.width+1)) & w.wordMask", expect="equivalent")
+M("C08", "get-8-end", "bitword/bitword.go", "return (word >> uint(7-end)) & w.wordMask", "return (word >> uint(8-end)) & w.wordMask")
+M("C08", "firstdiff-no-lb-clamp", "bitword/bitword.go", "\tif end > lb {\n\t\tend = lb\n\t}\n", "\tif end > lb+1 {\n\t\tend = lb\n\t}\n")
+M("C08", "tostr-pad", "bitword/bitword.go", "\t\t\t\tb = b << uint(w.width)\n", "\t\t\t\tb = b<<uint(w.width) | 1\n")
+M("C08", "firstdiff-end-minus1", "bitword/bitword.go", "\tif end == -1 {\n\t\tend = la\n\t}", "\tif end == -1 {\n\t\tend = lb\n\t}", expect="equivalent")  # clamped to min(la, lb) right after
+# ---- C10
+M("C10", "mask-shift", "bmtree/newpath.go", "(bitmap.Mask[length] << uint(height-length))", "(bitmap.Mask[length] << uint(height-length) >> 1 << 1)", expect="caught")
+M("C10", "pathstr-pad", "bmtree/pathstr.go", 'fmt.Sprintf("%0[1]*[2]b", l, path>>uint(32+treeHeight-l))', 'fmt.Sprintf("%[2]b", l, path>>uint(32+treeHeight-l))')
+M("C10", "pathheight-31", "bmtree/pathheight.go", "return int32(32 - bits.LeadingZeros32(uint32(path)))", "return int32(32 - bits.LeadingZeros32(uint32(path)&0x7fffffff))")
+M("C10", "pathlen-16", "bmtree/pathlen.go", "return int32(bits.OnesCount32(uint32(p)))", "return int32(bits.OnesCount32(uint32(p) & 0x7fffffff))")
+# ---- C16 / C17
+M("C16", "first-le-minl", "sigbits/firstdiff.go", "if first < minl {", "if first <= minl {", expect="equivalent")
+M("C16", "chunk-step-9", "sigbits/firstdiff.go", "for i := 0; i < la && i < lb; i += 8 {", "for i := 0; i < la && i < lb; i += 9 {")
+M("C16", "rst0-zero", "sigbits/countprefixes.go", "rst[0] = 1", "rst[0] = 0")
+M("C16", "get64-pad", "sigbits/firstdiff.go", "\t\tbs := make([]byte, 8)\n\t\tcopy(bs, s)", "\t\tbs := []byte{0, 0, 0, 0, 0, 0, 0, 1}\n\t\tcopy(bs, s)", expect="equivalent")  # padding lies beyond the shorter key and is clipped to 8*min(len)
+M("C16", "count-slice", "sigbits/sigbits_countprefixes.go", "sb.sigbits[keyStart:keyEnd-1]", "sb.sigbits[keyStart:keyEnd]", count=1)
+M("C17", "maxsize-lt", "sigbits/sharding.go", "if e-s <= maxSize {", "if e-s < maxSize {")
+M("C17", "prefixlen-le", "sigbits/sharding.go", "if prefixLen < longest {", "if prefixLen <= longest {", expect="equivalent")  # shards differently, but every clause of C17 still holds
+M("C17", "min-from-last", "sigbits/sharding.go", "for i := s; i < e-1; i++ {\n\t\t\t\tif min > firstDiffs[i]>>3 {", "for i := s; i < e-2; i++ {\n\t\t\t\tif min > firstDiffs[i]>>3 {")
+M("C17", "no-restart", "sigbits/sharding.go", "\t\t\t\tendsAt = endsAt[0:0]\n", "", expect="equivalent")  # over-splits, but every clause of C17 still holds
+M("C17", "last-range-dropped", "sigbits/sharding.go", "for i := 0; i < len(endsAt); i++ {", "for i := 0; i < len(endsAt)-1; i++ {")
+M("C17", "lcp-from-last-key", "sigbits/sharding.go", "\t\t\tmin := int32(len(keys[s]))\n", "\t\t\tmin := int32(len(keys[e-1]))\n", expect="equivalent")  # min over adjacent LCPs is <= len(keys[s]) anyway
+# ---- C03
+M("C03", "full-const", "bmtree/index.go", "return (int32(path>>32) << 1) + int32(bits.OnesCount64(path^0xffffffff00000000)) - 32, has", "return (int32(path>>32) << 1) + int32(bits.OnesCount64(path^0xffffffff00000000)) - 31, has")
+M("C03", "shiftmulti-off", "bmtree/partial_tree.go", "\t\trst += (a >> shift)\n", "\t\trst += (a >> (shift + 1))\n")
+M("C03", "mask-upto", "bmtree/index.go", "return int32(idx + uint64(bits.OnesCount64(sz&bitmap.Mask[PathLen(path)]))), has", "return int32(idx + uint64(bits.OnesCount64(sz&bitmap.MaskUpto[PathLen(path)&63]))), has")
+M("C03", "debug-contract-30", "bmtree/bitmap_check.go", "must.Be.True(height <= 30)", "must.Be.True(height < 30)")
+M("C03", "debug-pathcheck-strict", "bmtree/pathcheck.go", "must.Be.Equal(uint64(0), path&0xc0000000c0000000)", "must.Be.Equal(uint64(0), path&0xe0000000e0000000)")
+M("C03", "strict-vs-loose", "bmtree/index.go", "\t\tidx := shiftMulti(sz, path>>32, uint64(height))\n\t\treturn int32(idx + uint64(bits.OnesCount64(sz&bitmap.Mask[PathLen(path)])))", "\t\tidx := shiftMulti(sz, path>>32, uint64(height))\n\t\treturn int32(idx + uint64(bits.OnesCount64(sz&bitmap.Mask[PathLen(path)]&^(1<<20))))")
+# ---- C04
+M("C04", "from-le", "bmtree/allpaths.go", "if p < from {", "if p <= from {")
+M("C04", "to-gt", "bmtree/allpaths.go", "if p >= to {", "if p > to {")
+M("C04", "tz-clamp-removed", "bmtree/allpaths.go", "\t\tif tz > height {\n\t\t\ttz = height\n\t\t}\n", "")
+M("C04", "decode-len-ge", "bmtree/decode.go", "if int32(len(bm)) > wordI &&", "if int32(len(bm)) >= wordI && int32(len(bm)) > 0 && wordI < int32(len(bm))+0 &&", expect="equivalent")
+M("C04", "decode-bit", "bmtree/decode.go", "bm[wordI]&(1<<uint(idx&63)) != 0", "bm[wordI]&(1<<uint(idx&31)) != 0")
+M("C04", "t-plus0", "bmtree/allpaths.go", "t = to>>32 + 1", "t = to>>32 + 0")
+# ---- C05
+M("C05", "fixed-off", "bmtree/index.go", "fixed := treeheight + 1 - diffbits", "fixed := treeheight + 2 - diffbits")
+M("C05", "index-dec2", "bmtree/index.go", "\t\t\tindex--\n", "\t\t\tindex -= 2\n")
+M("C05", "table-entry", "bmtree/index.go", "(0x00000005 << 32) + 0x00000007, // 11  101", "(0x00000005 << 32) + 0x00000006, // 11  101")
+M("C05", "mask-and7", "bmtree/index.go", "for mask&15 == 0 && index > 0 {", "for mask&7 == 0 && index > 0 {", expect="equivalent")  # descends one more level and lands in a smaller table: same answers (shown by the exhaustive run)
+M("C05", "height-gt5", "bmtree/index.go", "if treeheight > 4 {", "if treeheight > 5 {", expect="equivalent")  # only disables the shortcut for h = 5
+M("C05", "height-gt3", "bmtree/index.go", "if treeheight > 4 {", "if treeheight > 3 {", expect="equivalent")  # shortcut also valid for h = 4 (shown by the exhaustive run)
+M("C05", "diffbits-31", "bmtree/index.go", "diffbits := 32 - int32(bits.LeadingZeros32(uint32(i1^i2)))", "diffbits := 31 - int32(bits.LeadingZeros32(uint32(i1^i2)))")
+M("C05", "right-turn", "bmtree/index.go", "\t\t\tindex -= int32(maskAndPathBit >> 32)\n", "\t\t\tindex -= int32(maskAndPathBit>>32) - 1\n")
